@@ -363,11 +363,11 @@ def main_run(prop, tier, cases, *, functions=(), bounds=None, stubs=(), assumpti
           f'verdict_queries={agg["obligations"]} solver_queries={agg["queries"]} '
           f'solver_time={agg["solver_time"]:.1f}s validated={agg["validated"]} wall={wall:.1f}s '
           f'violations={len(new_viol)} known={len(known_hit)} errors={len(errors)}')
+    for e in errors[:10]:
+        print('HARNESS-ERROR:', e, file=sys.stderr)
     if new_viol:
         return EXIT_VIOLATION
     if errors:
-        for e in errors[:10]:
-            print('HARNESS-ERROR:', e, file=sys.stderr)
         return EXIT_HARNESS
     return EXIT_OK
 
